@@ -53,8 +53,11 @@ package app
 //@   ensures p.procState.ExitCode == code
 //@   assigns p.procState.ExitCode
 
+// The decision consumes the one-shot "do not restart" flag: it is taken exactly once per exit of the command.
+//@ ghost decisions() int
 //@ func (p *Process) isRestartable
 //@   requires unlocked(p)
+//@   sets decisions() := decisions() + 1
 //@   ensures spec: result <==> restartSpec(old(abool(p.isStopped)), p.procConf.RestartPolicy.Restart, p.procState.ExitCode, p.procState.Restarts, p.procConf.RestartPolicy.MaxRestarts)
 //@   ensures consumed: !abool(p.isStopped)
 //@   assigns abool(p.isStopped)
@@ -153,7 +156,11 @@ package app
 //@   ensures closed(p.procStartedChan) && p.started
 //@   assigns p.started, closed(p.procStartedChan), loggerOpen(p.logger)
 
+// C10: a process that is being stopped - by request or because its readiness probe reached the failure threshold -
+// is no longer probed: the probers are stopped (which is also what resets their failure count for the relaunch).
+//@ define probesStopped(p *Process) bool = (p.liveProber != nil && p.liveProber.hc != nil ==> abool(p.liveProber.stopped)) && (p.readyProber != nil && p.readyProber.hc != nil ==> abool(p.readyProber.stopped))
 //@ func (p *Process) stopProbes
+//@   ensures stopped: probesStopped(p)
 //@   ensures flags-kept: monotone("abool")
 //@   assigns abool(p.liveProber.stopped), abool(p.readyProber.stopped)
 //@ func (p *Process) startProbes
@@ -272,6 +279,7 @@ package app
 //@   ensures pending: st0 == "Pending" ==> p.done && p.procState.Status == "Terminating"
 //@   ensures pending-not-a-success: st0 == "Pending" ==> p.procState.ExitCode != 0
 //@   ensures terminating: isRunningState(st0) ==> p.procState.Status == "Terminating" && p.procState.Health == "-"
+//@   ensures probes-stopped: isRunningState(st0) ==> probesStopped(p)
 //@   ensures readiness: isRunningState(st0) && cancelReadinessFuncs ==> cancelled(p.procLogReadyCtx) && (p.readyProber != nil ==> cancelled(p.procReadyCtx))
 //@   ensures logcause: okCancels() == old(okCancels())
 //@   ensures command: isRunningState(st0) && isDefinedStr(sp.ShutDownCommand) ==> runs() == old(runs()) + 1 && ranEnv() == lastProcEnv() && ranDir() == p.procConf.WorkingDir
@@ -326,12 +334,14 @@ package app
 //@   requires !held(p.stateMtx) && !held(p.confMtx)
 //@   requires starter: isclosure(runnable, "(*app.Process).getProcessStarter$1") && captured(runnable, "(*app.Process).getProcessStarter$1", "p") == p
 //@   param runnable as (*app.Process).getProcessStarter$1
-//@   ensures launched: starts() == old(starts()) + 1 && startAfterWait(old(starts())) == lastWait() && lastWait() == old(lastWait())
-//@   ensures status: p.procState.Status == state
-//@   ensures forget: (state == "Restarting" || state == "Launching" || state == "Terminating") ==> p.procState.Health == "-"
+//@   ensures no-launch-once-stopped: old(cancelled(p.procRunCtx)) ==> starts() == old(starts()) && result != nil
+//@   ensures refused-or-launched: (starts() == old(starts()) && result != nil && p.procState.Status == old(p.procState.Status) && p.command == old(p.command)) ||
+//@        (starts() == old(starts()) + 1 && startAfterWait(old(starts())) == lastWait() && lastWait() == old(lastWait()))
+//@   ensures status: starts() > old(starts()) ==> p.procState.Status == state
+//@   ensures forget: starts() > old(starts()) && (state == "Restarting" || state == "Launching" || state == "Terminating") ==> p.procState.Health == "-"
 //@   ensures keepexit: state != "Skipped" ==> p.procState.ExitCode == old(p.procState.ExitCode)
-//@   ensures env: cmdEnv(p.command) == lastProcEnv() && cmdDir(p.command) == p.procConf.WorkingDir
-//@   ensures streams: !attachedIo(p) ==> p.stdOutDone != nil && (!p.procConf.IsTty ==> p.stdErrDone != nil)
+//@   ensures env: starts() > old(starts()) ==> cmdEnv(p.command) == lastProcEnv() && cmdDir(p.command) == p.procConf.WorkingDir
+//@   ensures streams: starts() > old(starts()) && !attachedIo(p) ==> p.stdOutDone != nil && (!p.procConf.IsTty ==> p.stdErrDone != nil)
 //@   ensures !held(p.stateMtx) && !held(p.confMtx)
 //@   assigns p.procState.Status, p.procState.ExitCode, p.procState.Health, p.command, p.stdOutDone, p.stdErrDone, p.stdin, starts(), startAfterWait(starts()), cmdEnv[*], cmdDir[*], envConfigured[*], dirConfigured[*], pgrpSet[*], lastProcEnv(), lastEnviron(), spawned[*]
 
@@ -371,8 +381,10 @@ package app
 //@   ensures unlocked(p)
 //@   ensures nolocks: old(noLocks()) ==> noLocks()
 //@   ensures exit-code-recorded: p.procState.Status == "Completed" && waits() > old(waits()) ==> p.procState.ExitCode == exitCodeAt(waits()) && result == exitCodeAt(waits())
+//@   ensures one-decision-per-exit: decisions() - old(decisions()) == waits() - old(waits())
 //@   ensures drained-before-wait: forall i int :: old(waits()) <= i && i < waits() ==> waitAtDrains(i) == old(drains()) + (i - old(waits())) + 1
 //@   loop 1 invariant waits() - old(waits()) == drains() - old(drains()) && waits() >= old(waits())
+//@   loop 1 invariant decisions() - old(decisions()) == waits() - old(waits())
 //@   loop 1 invariant waits() > old(waits()) ==> p.procState.ExitCode == exitCodeAt(waits())
 //@   loop 1 invariant forall i int :: old(waits()) <= i && i < waits() ==> waitAtDrains(i) == old(drains()) + (i - old(waits())) + 1
 //@   loop 1 invariant procWF(p) && unlocked(p) && bufWF(p.logBuffer) && (old(noLocks()) ==> noLocks())
@@ -554,6 +566,10 @@ package app
 //@ func withProcConf
 //@   sets lastProcConfOpt() := procConf
 //@   ensures result != nil
+//@ ghost lastLoggerOpt() pclog.PcLogger
+//@ func withLogger
+//@   sets lastLoggerOpt() := logger
+//@   ensures result != nil
 // NewProcess: the context part of the object invariant is PROVED from the body; that the option closures fill in
 // configuration, state and log buffer (they are opaque function values here) is an assumed clause.
 //@ func (p *Process) setUpProbes
@@ -564,7 +580,7 @@ package app
 //@   param opt as procopt
 //@   ensures fresh: result != nil && fresh(result) && unlocked(result)
 //@   ensures contexts: ctxWF(result)
-//@   ensures assumed-options-applied: result.procConf != nil && result.procState != nil && result.logBuffer != nil && bufWF(result.logBuffer) && closeOnly(result.procStartedChan) && result.procConf == lastProcConfOpt() && !result.done
+//@   ensures assumed-options-applied: result.procConf != nil && result.procState != nil && result.logBuffer != nil && bufWF(result.logBuffer) && closeOnly(result.procStartedChan) && result.procConf == lastProcConfOpt() && !result.done && result.logger == lastLoggerOpt()
 //@   assigns ctxCount()
 //@   loop 1 invariant idx >= -1 && proc != nil && fresh(proc) && unlocked(proc)
 
@@ -591,6 +607,8 @@ package app
 //@   requires no-live-instance: !(config.ReplicaName in p.runningProcesses) || p.runningProcesses[config.ReplicaName].done
 //@   ensures registered: config.ReplicaName in p.runningProcesses && fresh(p.runningProcesses[config.ReplicaName]) && p.runningProcesses[config.ReplicaName].procConf == config
 //@   ensures one-instance: spawned(fntag("(*app.ProjectRunner).runProcess$1")) == old(spawned(fntag("(*app.ProjectRunner).runProcess$1"))) + 1
+//@   ensures own-log-file-own-logger: isDefinedStr(config.LogLocation) ==> p.runningProcesses[config.ReplicaName].logger != p.logger
+//@   ensures project-logger-otherwise: !isDefinedStr(config.LogLocation) ==> p.runningProcesses[config.ReplicaName].logger == p.logger
 //@   ensures others-kept: forall k string :: k != config.ReplicaName ==> (k in p.runningProcesses <==> old(k in p.runningProcesses)) && p.runningProcesses[k] == old(p.runningProcesses[k])
 //@   ensures nolocks: noLocks() && runnerWF(p)
 //@   assigns p.runningProcesses[config.ReplicaName], config.RestartPolicy.ExitOnEnd, spawned[*], ctxCount(),
